@@ -244,6 +244,30 @@ def run(ctx):
                 for pr in rv["p"]["p"]:
                     if isinstance(pr, dict) and pr.get("a") == "gamedata::GameData" and pr.get("n") in writers:
                         writers[pr["n"]].add(name)
+    # any GameData state that code reachable from the queries mutates is query-history state: only the verified memo may be
+    gd = prog.adts.get("gamedata::GameData")
+    all_fields = [f["name"] for f in gd["variants"][0]["fields"]] if gd else []
+    ids_q, _pq = prog.reach(["gamedata::GameData::exists", "gamedata::GameData::find_offset", "gamedata::GameData::extract"])
+    reach_q = {prog.instances[i]["def"] for i in ids_q}
+    state_writes = {}
+    for name, b in prog.bodies.items():
+        if name not in reach_q:
+            continue
+        for _bi, _si, s in b.stmts():
+            if s["k"] != "assign":
+                continue
+            places = [s["lhs"]]
+            rv = s["rv"]
+            if rv.get("k") in ("ref", "rawptr") and rv.get("mut") not in (False, "Const", "Not"):
+                places.append(rv["p"])
+            for pl in places if (s["lhs"]["p"] or len(places) > 1) else []:
+                for pr in pl["p"]:
+                    if isinstance(pr, dict) and pr.get("a") == "gamedata::GameData" and pr.get("n") in all_fields:
+                        if pl is s["lhs"] or pl is not s["lhs"]:
+                            state_writes.setdefault(pr["n"], set()).add(name)
+    extra_state = {k: sorted(v) for k, v in state_writes.items() if not (k == "index_files" and v <= {"gamedata::GameData::cache_index_file"})}
+    ctx.ob("MEMO", "query-state", not extra_state, f"GameData fields mutated by code reachable from exists/find_offset/extract besides the verified index memo: {extra_state}; any such field makes answers depend on earlier queries unless it is a memo keyed by everything its value depends on", "src/gamedata.rs", None)
+    ctx.floor("MEMO", "GameData fields", len(all_fields), 3)
     ctx.ob("MEMO", "who-may-write|index_files", writers["index_files"] <= {"gamedata::GameData::cache_index_file"}, f"functions mutating GameData.index_files: {sorted(writers['index_files'])}; only cache_index_file may", "src/gamedata.rs", None, sample=True)
     ids, _par = prog.reach(["gamedata::GameData::exists", "gamedata::GameData::find_offset", "gamedata::GameData::extract"])
     reach_defs = {prog.instances[i]["def"] for i in ids}
